@@ -191,6 +191,46 @@ def sweep(tier, seed=0):
                         break
                 if e2e_fail:
                     break
+        # a DASK integer array as indexer, with many (repeated, unsorted) entries per indexer chunk, 1-d and along axis 1
+        if e2e_fail == 0:
+            rnd_i = __import__("random").Random(seed + 1)
+            for xshape, xch, axis in [((30,), ((4, 2, 11, 13),), 0), ((6, 30), ((4, 2), (11, 11, 8)), 1), ((30, 3), ((10, 20), (3,)), 0)]:
+                xi = np.arange(int(np.prod(xshape))).reshape(xshape) * 7
+                di = da.from_array(xi, chunks=xch)
+                for nidx, ich in [(90, 45), (40, 40), (64, 16), (5, 2)]:
+                    idx = np.array([rnd_i.randrange(xshape[axis]) for _ in range(nidx)])
+                    cases += 1
+                    try:
+                        key = (slice(None),) * axis + (da.from_array(idx, chunks=ich),)
+                        got = di[key].compute()
+                        want = xi[(slice(None),) * axis + (idx,)]
+                        msg = None if (got.shape == want.shape and np.array_equal(got, want)) else f"x[<dask int array of {nidx} entries, chunks {ich}>] along axis {axis} of chunks {xch}: {int((got != want).sum()) if got.shape == want.shape else 'shape'} values differ from NumPy"
+                    except Exception as e:  # noqa
+                        msg = f"x[<dask int array>] raised {type(e).__name__}: {e}"
+                    if msg:
+                        fails.append(rtc.Failure("Array.__getitem__", {"shape": xshape, "chunks": xch, "axis": axis, "dask_indexer": {"entries": nidx, "chunks": ich}}, "ensures", "C20-equals-numpy", msg))
+                        e2e_fail += 1
+                        break
+                if e2e_fail:
+                    break
+        # vindex keys made of slices only: either refused or NumPy's answer, never the array under another order
+        if e2e_fail == 0:
+            xs_ = np.arange(12).reshape(3, 4)
+            ds_ = da.from_array(xs_, chunks=((2, 1), (2, 2)))
+            for key in [(slice(None, None, -1),), (slice(None), slice(None, None, -1)), (slice(-1, None, -1), slice(None)), (slice(None),), (slice(None), slice(None)), (slice(None, None, 2),), (slice(1, None),)]:
+                cases += 1
+                try:
+                    got = ds_.vindex[key].compute()
+                    want = xs_[key]
+                    msg = None if (got.shape == want.shape and np.array_equal(got, want)) else f"vindex{list(key)!r} returns {got.tolist()}, NumPy gives {want.tolist()}"
+                except (IndexError, NotImplementedError, ValueError):
+                    msg = None   # refusing a key without point indexers is fine
+                except Exception as e:  # noqa
+                    msg = f"vindex{list(key)!r} raised {type(e).__name__}: {e}"
+                if msg:
+                    fails.append(rtc.Failure("Array.vindex", {"chunks": ((2, 1), (2, 2)), "key": repr(key), "slices_only": True}, "ensures", "C20-vindex-equals-numpy", msg))
+                    e2e_fail += 1
+                    break
         # 2-D combinations
         if e2e_fail == 0:
             x = np.arange(12).reshape(3, 4)
